@@ -1,6 +1,6 @@
 (* C18 property theorems: statements only, each closed by `exact`, pinned by `Check`, assumptions printed. *)
-From Coq Require Import NArith ZArith List Bool Arith.
-From C18 Require Import Json Proofs_Lex Proofs_Parse Proofs_Round Proofs_Obj Proofs_Inst Proofs_WF Proofs_C18.
+From Coq Require Import NArith ZArith List Bool Arith Lia.
+From C18 Require Import Json Proofs_Lex Proofs_Parse Proofs_Round Proofs_Obj Proofs_Inst Proofs_WF Proofs_C18 DeepModel_C18 DeepProofs_C18.
 Import ListNotations.
 Local Open Scope N_scope.
 
@@ -256,6 +256,88 @@ Check gap_number_well_formed :
   forall z, wf16 (gap_of_space (SpNum z)) = true.
 Print Assumptions gap_number_well_formed.
 
+(* ---- deepening round: values with identities and the stack of SerializeJSONObject/Array (DeepModel_C18.v) ---- *)
+
+(* sharing is unobservable: for a DAG (closed store, a rank decreasing along every edge) JSON.stringify over the value with
+   identities never throws, gives exactly the text of the unfolded tree, and hands the stack back empty -- at every fuel above the
+   number of nodes, any gap, any shape of sharing (same instance under several keys, at several depths) *)
+Theorem stringify_dag_eq_tree :
+  forall (num : Type) (print_num : num -> list N) (st : store num) (rk : nat -> nat) (gap ind : list N) (v : ival num),
+  closed num st -> rank_ok num st rk -> ref_lt num (length st) v ->
+  forall fu, (forall j, v = IRef j -> (rk j < fu)%nat) ->
+  exists t, unfold num fu st v = Some t /\
+    forall f, (length st < f)%nat -> ser_id num print_num f st gap [] ind v = ([], inl (serialize_at num print_num gap ind t)).
+Proof. exact stringify_dag_eq_tree_lemma. Qed.
+Check stringify_dag_eq_tree :
+  forall (num : Type) (print_num : num -> list N) (st : store num) (rk : nat -> nat) (gap ind : list N) (v : ival num),
+  closed num st -> rank_ok num st rk -> ref_lt num (length st) v ->
+  forall fu, (forall j, v = IRef j -> (rk j < fu)%nat) ->
+  exists t, unfold num fu st v = Some t /\
+    forall f, (length st < f)%nat -> ser_id num print_num f st gap [] ind v = ([], inl (serialize_at num print_num gap ind t)).
+Print Assumptions stringify_dag_eq_tree.
+
+(* a value with no finite unfolding (a cycle is reachable) throws the cyclic-structure TypeError *)
+Theorem cycle_throws :
+  forall (num : Type) (print_num : num -> list N) (st : store num) (gap ind : list N) (v : ival num),
+  closed num st -> ref_lt num (length st) v -> (forall f, unfold num f st v = None) ->
+  forall f, (length st < f)%nat -> snd (ser_id num print_num f st gap [] ind v) = inr ECycle.
+Proof. exact cycle_throws_lemma. Qed.
+Check cycle_throws :
+  forall (num : Type) (print_num : num -> list N) (st : store num) (gap ind : list N) (v : ival num),
+  closed num st -> ref_lt num (length st) v -> (forall f, unfold num f st v = None) ->
+  forall f, (length st < f)%nat -> snd (ser_id num print_num f st gap [] ind v) = inr ECycle.
+Print Assumptions cycle_throws.
+
+(* step 1 of SerializeJSONObject/Array: a value that is on the stack is refused, the stack untouched *)
+Theorem reentry_throws :
+  forall (num : Type) (print_num : num -> list N) (st : store num) (gap : list N) (K : stack) (ind : list N) (f i : nat),
+  In i K -> ser_id num print_num (S f) st gap K ind (IRef i) = (K, inr ECycle).
+Proof. exact reentry_throws_lemma. Qed.
+Check reentry_throws :
+  forall (num : Type) (print_num : num -> list N) (st : store num) (gap : list N) (K : stack) (ind : list N) (f i : nat),
+  In i K -> ser_id num print_num (S f) st gap K ind (IRef i) = (K, inr ECycle).
+Print Assumptions reentry_throws.
+
+(* any store (cyclic or not), any stack: a normal completion restores the stack and its text is the text of a finite unfolding *)
+Theorem stringify_id_ok_is_tree :
+  forall (num : Type) (print_num : num -> list N) (st : store num) (gap : list N) (f : nat) (v : ival num)
+         (K : stack) (ind : list N) (K' : stack) (r : option (list N)),
+  ser_id num print_num f st gap K ind v = (K', inl r) ->
+  K' = K /\ exists t, unfold num f st v = Some t /\ r = serialize_at num print_num gap ind t.
+Proof. exact ok_unfold. Qed.
+Check stringify_id_ok_is_tree :
+  forall (num : Type) (print_num : num -> list N) (st : store num) (gap : list N) (f : nat) (v : ival num)
+         (K : stack) (ind : list N) (K' : stack) (r : option (list N)),
+  ser_id num print_num f st gap K ind v = (K', inl r) ->
+  K' = K /\ exists t, unfold num f st v = Some t /\ r = serialize_at num print_num gap ind t.
+Print Assumptions stringify_id_ok_is_tree.
+
+(* the model's own abnormal outcomes do not occur: closed store, duplicate-free stack inside the store, fuel above the free nodes *)
+Theorem stringify_id_total :
+  forall (num : Type) (print_num : num -> list N) (st : store num) (gap : list N), closed num st ->
+  forall (f : nat) (v : ival num) (K : stack) (ind : list N), ref_lt num (length st) v -> NoDup K ->
+  (forall i, In i K -> (i < length st)%nat) -> (length st < f + length K)%nat ->
+  forall e, snd (ser_id num print_num f st gap K ind v) = inr e -> ~ bad e.
+Proof. exact ser_not_bad. Qed.
+Check stringify_id_total :
+  forall (num : Type) (print_num : num -> list N) (st : store num) (gap : list N), closed num st ->
+  forall (f : nat) (v : ival num) (K : stack) (ind : list N), ref_lt num (length st) v -> NoDup K ->
+  (forall i, In i K -> (i < length st)%nat) -> (length st < f + length K)%nat ->
+  forall e, snd (ser_id num print_num f st gap K ind v) = inr e -> ~ bad e.
+Print Assumptions stringify_id_total.
+
+(* more fuel never changes an answer *)
+Theorem stringify_id_fuel_mono :
+  forall (num : Type) (print_num : num -> list N) (st : store num) (gap : list N) (f g : nat) (v : ival num)
+         (K : stack) (ind : list N) (K' : stack) (r : option (list N) + err), (f <= g)%nat ->
+  ser_id num print_num f st gap K ind v = (K', r) -> r <> inr EFuel -> ser_id num print_num g st gap K ind v = (K', r).
+Proof. exact ser_mono. Qed.
+Check stringify_id_fuel_mono :
+  forall (num : Type) (print_num : num -> list N) (st : store num) (gap : list N) (f g : nat) (v : ival num)
+         (K : stack) (ind : list N) (K' : stack) (r : option (list N) + err), (f <= g)%nat ->
+  ser_id num print_num f st gap K ind v = (K', r) -> r <> inr EFuel -> ser_id num print_num g st gap K ind v = (K', r).
+Print Assumptions stringify_id_fuel_mono.
+
 (* the hypotheses of the general theorems are satisfiable (both instances), and the definitions compute *)
 Example hyp_Z : (forall x : Z, (fun _ => true) x = true -> number_token (print_Z x) = true) /\
                 (forall x : Z, (fun _ => true) x = true -> parse_Z (print_Z x) = Some x).
@@ -294,3 +376,29 @@ Proof. exact gap_can_split_pair. Qed.
 
 Example hyp_wf_tok : forall t, number_token t = true -> wf16 (print_tok t) = true.
 Proof. exact number_token_wf16. Qed.
+
+(* deepening: the hypotheses are satisfiable and the definitions compute.  E = {} shared under two keys and once more inside an
+   array (store: 0 = E, 1 = [E], 2 = {"a":E,"b":E,"c":[E]}), rank = index *)
+Example ex_dag :
+  let st := [NObj []; NArr [IRef 0]; NObj [([97], IRef 0); ([98], IRef 0); ([99], IRef 1)]] in
+  closed Z st /\ rank_ok Z st (fun i => i) /\
+  ser_id Z print_Z 4 st [] [] [] (IRef 2) =
+    ([], inl (Some [123;34;97;34;58;123;125;44;34;98;34;58;123;125;44;34;99;34;58;91;123;125;93;125])).
+Proof.
+  split; [|split].
+  - intros i n E c Hc j ->.
+    do 3 (destruct i as [|i]; [cbn in E; injection E as <-; cbn in Hc; intuition (try discriminate);
+                               repeat match goal with H : IRef _ = IRef _ |- _ => injection H as <- end; cbn; lia|]).
+    cbn in E. destruct i; discriminate.
+  - intros i n E j Hc.
+    do 3 (destruct i as [|i]; [cbn in E; injection E as <-; cbn in Hc; intuition (try discriminate);
+                               repeat match goal with H : IRef _ = IRef _ |- _ => injection H as <- end; lia|]).
+    cbn in E. destruct i; discriminate.
+  - vm_compute. reflexivity.
+Qed.
+
+(* a.x = a : closed, no finite unfolding, and the model answers ECycle *)
+Example ex_cycle :
+  closed Z [NObj [([97], @IRef Z 0)]] /\ (forall f, unfold Z f [NObj [([97], IRef 0)]] (IRef 0) = None) /\
+  snd (ser_id Z print_Z 2 [NObj [([97], IRef 0)]] [] [] [] (IRef 0)) = inr ECycle.
+Proof. split; [apply self_cycle_closed|split; [apply self_cycle_no_unfold|vm_compute; reflexivity]]. Qed.
